@@ -63,6 +63,7 @@ type thread struct {
 	rok      bool
 	selIdx   int
 	daemon   bool
+	demoted  int // >0: this thread was delayed (preempted by a deviation); it runs again only when no undelayed thread can
 }
 
 type object struct {
@@ -80,15 +81,16 @@ type PointInfo struct {
 
 // Result is what one execution produced.
 type Result struct {
-	Choices   []int
-	Points    []PointInfo
-	Costs     []int  // cumulative cost before each point
-	Status    string // "ok", "deadlock", "panic", "pruned", "fatal", "steplimit"
-	Detail    string
-	Steps     int
-	Trace     []string
-	Blocked   []string
-	NewStates int
+	Choices    []int
+	Points     []PointInfo
+	Costs      []int  // cumulative cost before each point
+	Status     string // "ok", "deadlock", "panic", "pruned", "fatal", "steplimit"
+	Detail     string
+	Steps      int
+	Trace      []string
+	Blocked    []string
+	NewStates  int
+	EarlyFires int // timers fired before quiescence (each cost one deviation)
 }
 
 // Options for one execution.
@@ -123,6 +125,7 @@ type exec struct {
 	known      map[uintptr]bool
 	mapChoices bool
 	ticks      int
+	demoteSeq  int
 	keep       map[uintptr]any
 }
 
@@ -355,19 +358,27 @@ func (e *exec) schedule(t *thread) {
 		if curEnabled {
 			en = append(en, t)
 		}
-		if e.opt.NewestFirst {
-			for i := len(e.threads) - 1; i >= 0; i-- {
-				if o := e.threads[i]; o != t && o.isEnabled() {
-					en = append(en, o)
-				}
-			}
-		} else {
-			for _, o := range e.threads {
-				if o != t && o.isEnabled() {
-					en = append(en, o)
-				}
+		// Delay-bounded order: undelayed threads first (oldest or newest first), then delayed ones in the order they were delayed.
+		var rest []*thread
+		for _, o := range e.threads {
+			if o != t && o.isEnabled() {
+				rest = append(rest, o)
 			}
 		}
+		sort.SliceStable(rest, func(i, j int) bool {
+			a, b := rest[i], rest[j]
+			if a.demoted != b.demoted {
+				if a.demoted == 0 || b.demoted == 0 {
+					return a.demoted == 0
+				}
+				return a.demoted < b.demoted
+			}
+			if e.opt.NewestFirst {
+				return a.id > b.id
+			}
+			return a.id < b.id
+		})
+		en = append(en, rest...)
 		if len(en) == 0 {
 			if e.fireTimerFree() {
 				continue
@@ -392,11 +403,17 @@ func (e *exec) schedule(t *thread) {
 		}
 		if idx >= len(en) {
 			e.fireTimerEarly(idx - len(en))
+			e.res.EarlyFires++
 			continue
 		}
 		next := en[idx]
 		if next == t {
 			return
+		}
+		if curEnabled && e.opt.DelayBound {
+			// the running thread was delayed in favour of another one: it goes to the back of the queue
+			e.demoteSeq++
+			t.demoted = e.demoteSeq
 		}
 		e.cur = next
 		next.gate <- struct{}{}
